@@ -207,6 +207,7 @@ type scheduler struct {
 	flushes    int
 	blockMs    int
 	freeMode   bool
+	holdKind   uint32
 	// PCT mode
 	pctPrio    []int
 	pctChange  []int
@@ -294,6 +295,22 @@ func (s *scheduler) run() {
 			pick = c % len(runnable)
 		case s.after == "first":
 			pick = 0
+		case s.after == "hold":
+			// Hold back every task that is parked at one kind of point (inside a user callback, at a
+			// lock, at a Write ...) for as long as some other task can run: callers pile up at that
+			// kind of point, which is where limits and hand-over windows that count callers in
+			// flight show.
+			var free []int
+			for j, t := range runnable {
+				if pendKind[t] != s.holdKind {
+					free = append(free, j)
+				}
+			}
+			if len(free) > 0 {
+				pick = free[s.rng.Intn(len(free))]
+			} else {
+				pick = s.rng.Intn(len(runnable))
+			}
 		case s.after == "pct":
 			// PCT (Burckhardt et al., ASPLOS 2010): random task priorities, the runnable task with
 			// the highest priority runs, and at d-1 random change points the running task drops to
